@@ -24,6 +24,9 @@ def check_thresholds(value, n, nest):
         out, exc = None, ex
     else:
         exc = None
+    if value != v0:
+        # the specification belongs to the caller (the same configuration dict is used for several evaluators): normalising it must not rewrite it
+        return f"set_thresholds({v0!r}, {n}, nest={nest}) rewrote the caller's specification to {value!r}"
     flat_ok = (is_num(v0) or (isinstance(v0, list) and len(v0) in (1, n) and all(is_num(x) for x in v0) and len(v0) > 0))
     def inner_ok(x):
         return isinstance(x, list) and len(x) in (1, n) and len(x) > 0 and all(is_num(y) for y in x)
